@@ -186,6 +186,7 @@ class C02(E1Prop):
             op = {'op': 'probe', 'i': op['i'], 'dt': op['dt'],
                   'wipe': rng.random() < 0.3,
                   'nfaults': 6 if tier == 'quick' else 0,
+                  'skip_roll': rng.random(),
                   'pick': rng.randrange(10 ** 9)}
         return op
 
@@ -199,6 +200,22 @@ class C02(E1Prop):
             w.step_digest(op, [])
             return []
         ev = w.events.pop(op['i'] % len(w.events))
+        if op.get('skip_roll', 1.0) < 0.65:
+            # cheap look-ahead: most probes should land on jobs that move a
+            # destination branch (that is where all-or-none is decided)
+            def peek(w_):
+                recs = w_.deliver(dict(ev))
+                return bool(recs and any(
+                    ref_class(r) in ('development', 'stabilization',
+                                     'hotfix')
+                    for m in recs[0]['mut'] if m['kind'] == 'push'
+                    for r in (m.get('changed') or {})))
+            if not w.fork_variant(peek):
+                w.probe('probe-skipped-non-merging-job')
+                self.nprobes -= 1
+                recs = w.deliver(ev)
+                w.step_digest(op, recs)
+                return recs
 
         def clean(w_):
             recs = w_.deliver(dict(ev))
